@@ -195,6 +195,10 @@ def gen_restart_scenario(rng: random.Random, quick: bool):
     # kill instants inside the whole day, biased to pump-on phases by sheer number; any microsecond
     sc["kills"] = sorted(lead + rng.randrange(60, 86000) + rng.random() for _ in range(nk))
     sc["reconnects"] = sorted(lead + rng.randrange(60, 86000) + rng.random() for _ in range(rng.choice([0, 1, 2, 3])))
+    # "any mode": in a quarter of the scenarios the pool is opened (standby / overflow) some minutes before the first kill
+    sc["mode_switch"] = None
+    if rng.random() < 0.25:
+        sc["mode_switch"] = [max(lead + 30.0, sc["kills"][0] - rng.randrange(120, 2400)), rng.choice(["standby", "overflow"])]
     sc["perm_seed"] = rng.randrange(1 << 30)
     sc["settle_between"] = rng.choice([False, True])
     sc["water_every_s"] = rng.choice([0, 97, 600])
@@ -227,7 +231,7 @@ def run_restart_scenario(sc):
     msgs = list(broker.items())
     _deliver(s, [m for m in msgs if m[0] != "/settings/mode"] + [("/settings/mode", "eco")], False)
     env = ec.HeatEnv(s, sc.get("heat"))
-    events = sorted([(t, "kill") for t in sc["kills"]] + [(t, "reconnect") for t in sc["reconnects"]] + [(end_s, "end")])
+    events = sorted([(t, "kill") for t in sc["kills"]] + [(t, "reconnect") for t in sc["reconnects"]] + [(end_s, "end")] + ([(sc["mode_switch"][0], "mode")] if sc.get("mode_switch") else []))
     segs = []  # (system, abs start µs)
     seg_start_s = 0.0
     water_pubs, heat_pubs = [], []
@@ -266,6 +270,10 @@ def run_restart_scenario(sc):
             break
         if what == "end":
             break
+        if what == "mode":
+            broker["/settings/mode"] = sc["mode_switch"][1]
+            s.mqtt_in("/settings/mode", sc["mode_switch"][1])
+            continue
         # what the broker holds now
         n_before = len(water_pubs), len(heat_pubs)
         if what == "reconnect":
@@ -280,7 +288,7 @@ def run_restart_scenario(sc):
             _deliver(s, msgs, sc["settle_between"])
             after = ec.td_us(_eco_of(s).filtration.duration)
             if after != before:
-                findings.append({"key": "once-topic-applied-twice", "what": f"a reconnect redelivery changed the accounted duration from {before} to {after} µs", "at_s": t_ev})
+                findings.append({"key": "accounting-changed-by-redelivery", "what": f"a reconnect redelivery changed the accounted duration from {before} to {after} µs", "at_s": t_ev})
             continue
         # ---- kill
         true_dur = ec.td_us(_eco_of(s).filtration.duration)
@@ -320,7 +328,7 @@ def run_restart_scenario(sc):
         first += ec.DAY_US
     t_end = segs[-1][1] + segs[-1][0].world.now_us
     day = None
-    if first + ec.DAY_US <= t_end and not any(f["key"] == "actor-died" for f in findings):
+    if first + ec.DAY_US <= t_end and not sc.get("mode_switch") and not any(f["key"] == "actor-died" for f in findings):
         got = ec.on_time(iv, first, first + ec.DAY_US)
         want = min(sc["daily"] * ec.US, ec.DAY_US)
         nrest = sum(1 for k in kill_abs if first <= k < first + ec.DAY_US)
@@ -363,7 +371,7 @@ def restart_case(sc):
 WHAT = {
     "restored-duration": "Filtration: the filtration time restored after a restart is more than five minutes short of the accounted one",
     "daily-quota-after-restart": "Filtration: the daily quota is missed by more than 180 s + 300 s per restart",
-    "once-topic-applied-twice": "Dispatcher: a once-topic (/status/filtration/duration) was applied a second time in the same process",
+    "accounting-changed-by-redelivery": "a redelivery of the retained messages to the running process (MQTT reconnect) changed the accounted filtration time (a once-topic applied a second time, or a setting that does not keep today's elapsed time)",
     "water-counter-decreased": "Arduino: the published water counter decreased across a restart",
     "heating-total-decreased": "Heating: the published heat-pump running time decreased across a restart",
     "actor-died": "an actor died / deadlocked during the kill-restart scenario",
